@@ -251,6 +251,32 @@ def run(tier, seed):
                                 if bad:
                                     ck.fail('a hardware-diagnostics section inside a PEL does not show what its parser gives for (subtype, version, payload)',
                                             rp2 | {'members': bad[:4]}, 'pel_section')
+                # ---- a sample of the same calls in an interpreter with assertions disabled (python -O): same results
+                import subprocess
+                oreqs, onorm = [], []
+                for m in [x for x in meta if x is not None][::max(1, len(meta) // 40)]:
+                    try:
+                        if m[0] == 'sig':
+                            oreqs.append(['sig', m[1], m[2], m[3]]); onorm.append(json.loads(json.dumps(ParserData().get_signature(m[1], m[2], m[3]))))
+                        elif m[0] == 'ud':
+                            oreqs.append(['ud', m[1], m[2].hex()]); onorm.append(json.loads(ud.parseUDToJson(m[1], 1, memoryview(m[2]))))
+                        else:
+                            oreqs.append(['src', m[1], '%08X' % m[2], '%08X' % m[3], '%08X' % m[4]])
+                            onorm.append(json.loads(sp.parseSRCToJson(m[1], '0', '0', '0', '0', '%08X' % m[2], '%08X' % m[3], '%08X' % m[4], '0')))
+                    except Exception as e:  # noqa
+                        onorm.append(['<raises>', type(e).__name__])
+                pr = subprocess.run([common.PY, '-O', '-W', 'ignore', '-B', os.path.join(os.path.dirname(os.path.abspath(__file__)), 'opthw.py'), tmp],
+                                    input=''.join(json.dumps(q) + '\n' for q in oreqs).encode(), stdout=subprocess.PIPE, stderr=subprocess.PIPE, env=common.child_env(), timeout=300)
+                olines = pr.stdout.decode().split('\n')[:-1]
+                if pr.returncode != 0 or len(olines) != len(oreqs):
+                    ck.fail('the hardware-diagnostics decoders did not finish in a python -O interpreter', {'op': 'optimised-batch', 'exit': pr.returncode, 'stderr': pr.stderr.decode()[-300:]}, 'opt_batch')
+                else:
+                    for q, want, l in zip(oreqs, onorm, olines):
+                        ck.case(key=('-O', rnd, json.dumps(q)))
+                        ck.count('hardware diagnostics under python -O')
+                        if json.loads(l) != want:
+                            ck.fail('a hardware-diagnostics decoder gives a different result when assertions are disabled (python -O)',
+                                    {'op': 'optimised', 'case': json.dumps(q)[:300], 'optimise': True, 'normal': str(want)[:200], 'under_O': l[:200]}, 'differs_O')
                 # ---- a chip data file rewritten IN PLACE between two decodes of one process: names come from the file as it is NOW
                 if chips and 'desc' in chips[0]['model_ec']:
                     a0 = int(chips[0]['model_ec']['id'], 16)
